@@ -1,5 +1,6 @@
 import Tengo.Sexp
 import Tengo.Model.Host
+import Tengo.Model.HostHeap
 /-!
 Line protocol of the host/script exchange model (C15).
 
@@ -10,7 +11,11 @@ Line protocol of the host/script exchange model (C15).
 (var-acc <accessor> <tval> <strtab> <pi> <pf> <f2i> <i2f>) typed accessor of Variable
 (api <maxStr> <maxBytes> <op>…)   (aapi …)            a history on the concrete model / on the abstract specification
 (api-eval <maxStr> <maxBytes> <expr> ((name goval)…) <strtab>)
+(apiheap <maxStr> <maxBytes> <hop>…)                  a history on the heap machine HostHeap.hrunOps (one shared store)
+(apiheap-spec <maxStr> <maxBytes> <hop>…)             `(safe 0|1)` = HostHeap.safeOpsG of the history, then HostHeap.srunOps
 ```
+`hop` = the `op` of `api`, with scripts `(new (<hstmt>…))`, `hstmt` = `(def n e)` | `(asg n e)` | `(updf n #key <tval>)`
+(`n.key = lit` / `n["key"] = lit`) | `(updi n <nat> <tval>)` (`n[i] = lit`) | `(fail)` | `(hid k)`.
 `strtab` = `((<tval> #hex)…)`: the `String()` text of the values the model needs (external, supplied by the
 harness); `pi pf f2i i2f` = the results of strconv.ParseInt / ParseFloat / int64(f) / float64(i) for this value.
 Names and keys travel as `#hex`; maps are printed sorted by key.
@@ -285,9 +290,52 @@ def handleEval : List Sexp → String
     | _, _, _, _, _ => "bad-op"
   | _ => "bad-op"
 
+/-! ### the heap machine (Tengo/Model/HostHeap.lean) -/
+
+open Tengo.Model.HostHeap in
+def parseHStmt : Sexp → Option HStmt
+  | .list [.atom "def", n, e] => do pure (.define (← asName? n) (← parseExpr e))
+  | .list [.atom "asg", n, e] => do pure (.assign (← asName? n) (← parseExpr e))
+  | .list [.atom "updf", n, k, t] => do pure (.upd (← asName? n) (.field (← asName? k)) (← parseT t))
+  | .list [.atom "updi", n, i, t] => do pure (.upd (← asName? n) (.index (← i.asNat?)) (← parseT t))
+  | .list [.atom "fail"] => some .fail
+  | .list [.atom "hid", k] => k.asNat?.map .hidden
+  | _ => none
+
+open Tengo.Model.HostHeap in
+def parseHOp : Sexp → Option HOp
+  | .list [.atom "new", .list ss] => (ss.mapM parseHStmt).map .newScript
+  | .list [.atom "add", s, n, g] => do pure (.add (← s.asNat?) (← asName? n) (← parseG g))
+  | .list [.atom "remove", s, n] => do pure (.remove (← s.asNat?) (← asName? n))
+  | .list [.atom "compile", s] => s.asNat?.map .compile
+  | .list [.atom "set", c, n, g] => do pure (.set (← c.asNat?) (← asName? n) (← parseG g))
+  | .list [.atom "run", c] => c.asNat?.map .run
+  | .list [.atom "get", c, n] => do pure (.get (← c.asNat?) (← asName? n))
+  | .list [.atom "getall", c] => c.asNat?.map .getAll
+  | .list [.atom "isdef", c, n] => do pure (.isDefined (← c.asNat?) (← asName? n))
+  | .list [.atom "clone", c] => c.asNat?.map .clone
+  | _ => none
+
+def handleApiHeapWith (run : Limits → List Tengo.Model.HostHeap.HOp → String) : List Sexp → String
+  | ms :: mb :: ops =>
+    match ms.asNat?, mb.asNat?, ops.mapM parseHOp with
+    | some a, some b, some os => "ok " ++ run ⟨a, b⟩ os
+    | _, _, _ => "bad-op"
+  | _ => "bad-op"
+
+/-- every observation of the history on the heap machine, in call order -/
+def handleApiHeap : List Sexp → String :=
+  handleApiHeapWith (fun L os => " ".intercalate ((Tengo.Model.HostHeap.hrunOps L {} os).map showOut))
+
+/-- the side condition of `api_refines_heap` on this history, then the per-handle specification's observations -/
+def handleApiHeapSpec : List Sexp → String :=
+  handleApiHeapWith (fun L os =>
+    "(safe " ++ (if Tengo.Model.HostHeap.safeOpsG L {} [] os then "1" else "0") ++ ") " ++
+      " ".intercalate ((Tengo.Model.HostHeap.srunOps L {} os).map showOut))
+
 def handlers : List (String × (List Sexp → String)) :=
   [("from", handleFrom), ("to", handleTo), ("go-norm", handleNorm), ("var-acc", handleAcc),
    ("api", handleApiWith (fun L ops => runOps L {} ops)), ("aapi", handleApiWith (fun L ops => arunOps L {} ops)),
-   ("api-eval", handleEval)]
+   ("api-eval", handleEval), ("apiheap", handleApiHeap), ("apiheap-spec", handleApiHeapSpec)]
 
 end Tengo.Drivers.C15
